@@ -97,12 +97,21 @@ dump_case, load_case = K.dump_case, K.load_case
 
 
 def _state(p):
+    """(dumps text, content); the content is taken BEFORE serialising and compared with the content afterwards, so that a
+    serialiser that rewrites the program is seen at the first dumps already (marker 'changed-by-dumps')."""
+    try:
+        before = canon.snapshot(p)
+    except Exception as ex:
+        before = "snapshot-error:%s" % type(ex).__name__
     t, e = K.safe_dumps(p)
     try:
         snap = canon.snapshot(p)
     except Exception as ex:
         snap = "snapshot-error:%s" % type(ex).__name__
-    return (t if e is None else "dumps-error:%s" % type(e).__name__, snap)
+    text = t if e is None else "dumps-error:%s" % type(e).__name__
+    if snap != before:
+        text = "changed-by-dumps:" + text
+    return (text, snap)
 
 
 def _mutate(p, how, vals):
@@ -187,6 +196,8 @@ def check(c):
         if e is not None:
             return Outcome(discard="load-failed:" + type(e).__name__)
         pool.append([p, _state(p), "loaded"])
+        if pool[-1][1][0].startswith("changed-by-dumps:"):
+            return _dumps_changed(len(pool) - 1, "loaded", texts)
     key = "\n=====\n".join(texts) + repr(c["steps"])
     out = Outcome(key=key)
     argless = any("args" not in o for p, _, _ in pool for o in p.operations)
@@ -227,6 +238,8 @@ def check(c):
                     inst = p(**vals)
                     if len(pool) < 8:
                         pool.append([inst, _state(inst), "instance-of-%d" % i])
+                        if pool[-1][1][0].startswith("changed-by-dumps:"):
+                            return _dumps_changed(len(pool) - 1, "instance-of-%d" % i, texts)
                     note = "call(%d)" % i
                 else:
                     note = "call-skipped"
@@ -275,6 +288,14 @@ def check(c):
     out.classes = sorted(did) + (["argument-less-operation"] if argless else []) + ["steps:%d" % (len(c["steps"]) // 5 * 5)]
     out.nontrivial = bool(did & {"graph", "match"}) and "mutate" in did and argless
     out.sample = {"scripts": texts, "steps": trace}
+    return out
+
+
+def _dumps_changed(x, origin, texts):
+    out = Outcome(key="\n=====\n".join(texts) + "|dumps-changes|%d" % x)
+    out.violations.append(Violation("changed|content|by-dumps|same-member",
+                                    "serialising pool member %d (%s) changed its content (content before dumps() differs from the content after)\nscripts:\n%s" % (
+                                        x, origin, "\n=====\n".join(texts))))
     return out
 
 
